@@ -3,7 +3,37 @@ import json, os, re, shutil, subprocess, tempfile
 import common
 from p_c06 import tie_names
 
-NAMES = ["a", "b", "a b", "ab", "job[1]", "x_c", "très"]   # no dots: AddYamlExtension treats ".d" as an extension (observation O3)
+NAMES = ["a", "b", "a b", "ab", "job[1]", "x_c", "très"]   # no dots other than the YAML extensions below (observation O3)
+
+# Names spelled WITH one of the two YAML extensions. What the unchanged store does with a name (dag_store.go
+# fileLocation = util.AddYamlExtension(dir/name); established by running it, see `denotes` in the harness):
+#     x            -> x.yaml            x.yml       -> x.yaml   (suffix REPLACED)       x.yaml -> x.yaml
+#     x.yml.yaml   -> x.yml.yaml  (another DAG, called "x.yml")                     x.yml.yml -> x.yml.yaml
+#     x.YAML, c.d  -> taken literally by the store, but the loader appends ".yaml" (x.YAML.yaml): O3, not generated
+# So several spellings denote ONE DAG. `resolve` is the monitor's own notion of "the DAG a name denotes": the file
+# of the DAGs directory. Two names with the same file are the same target; create / rename onto a name whose file
+# exists must be refused and leave that file's bytes and its history untouched.
+EXT_BASES = ["a", "report", "a b", "job[1]", "très"]
+EXT_FORMS = [".yml", ".yaml", ".yml.yaml"]
+
+
+def resolve(name):
+    dot = name.rfind(".")
+    if dot < 0: return name + ".yaml"
+    if name[dot:] == ".yml": return name[:dot] + ".yaml"
+    return name
+
+
+def finds_own_file(name):
+    """client.Rename looks both names up with dagStore.Find, which takes a spelling with an extension literally"""
+    return "." not in name or resolve(name) == name
+
+
+def ext_suffix(c, o):
+    sp = [c["names"][o[k]] for k in ("n", "n2") if k in o]
+    if any(x.endswith(".yml") for x in sp): return ":name-with-yml-extension"
+    if any(x.endswith(".yaml") for x in sp): return ":name-with-yaml-extension"
+    return ""
 
 
 def texts(rng):
@@ -22,6 +52,13 @@ def gen_case(rng, cid):
         base = rng.choice(["a", "ab", "report"])
         pair = [base, base.capitalize() if rng.random() < 0.5 else base.upper()]
         names = pair + [x for x in names if x not in pair][:nn - 2]
+        nn = len(names)
+    if rng.random() < 0.45:           # spellings with a YAML extension next to (mostly) the bare name they alias
+        base = rng.choice(EXT_BASES)
+        forms = [base + e for e in rng.sample(EXT_FORMS, rng.randint(1, 3))]
+        if rng.random() < 0.8: forms.append(base)
+        names = forms + [x for x in names if x not in forms][:max(1, 5 - len(forms))]
+        rng.shuffle(names)
         nn = len(names)
     T = texts(rng)
     ops, pay, nreq = [], 0, 0
@@ -42,8 +79,33 @@ def gen_case(rng, cid):
     return {"id": "d%d" % cid, "names": names, "texts": T, "ops": ops}
 
 
+def directed_cases(rng):
+    """the aliasing spellings, deterministically: `report` exists as report.yaml; every other spelling of it as a
+    create / rename target must be refused; `report.yml.yaml` is another DAG"""
+    N = ["report", "report.yml", "report.yaml", "other", "report.yml.yaml"]
+    t0 = 1717200000000
+    run = lambda n, k: {"op": "run", "n": n, "t": t0 + k * 3600000, "req": "%08x-%04d" % (rng.randrange(1 << 32), k), "p": "p%d" % k}
+    head = [{"op": "create", "n": 0}, {"op": "save", "n": 0, "text": 0}, run(0, 0), {"op": "create", "n": 3}, {"op": "save", "n": 3, "text": 1}, run(3, 1)]
+    a = head + [{"op": "create", "n": 1}, {"op": "create", "n": 2}, {"op": "rename", "n": 3, "n2": 1}, {"op": "rename", "n": 3, "n2": 2},
+                {"op": "create", "n": 4}, {"op": "rename", "n": 3, "n2": 4}, {"op": "rename", "n": 0, "n2": 2}, {"op": "rename", "n": 0, "n2": 1},
+                {"op": "rename", "n": 1, "n2": 3}, {"op": "save", "n": 1, "text": 2}, run(2, 2), {"op": "delete", "n": 4},
+                {"op": "rename", "n": 3, "n2": 4}, {"op": "delete", "n": 2}, {"op": "create", "n": 1}, {"op": "list"}]
+    b = head + [{"op": "delete", "n": 1}, {"op": "rename", "n": 3, "n2": 1}, {"op": "create", "n": 3}, {"op": "create", "n": 2}]
+    r = head + [{"op": "rename", "n": 3, "n2": 1}, {"op": "rename", "n": 3, "n2": 2}, {"op": "rename", "n": 2, "n2": 3}, {"op": "list"}]   # renames only
+    return [{"id": "dx0", "names": N, "texts": texts(rng), "ops": a}, {"id": "dx1", "names": N, "texts": texts(rng), "ops": b},
+            {"id": "dx2", "names": N, "texts": texts(rng), "ops": r}]
+
+
 def driver_text(c, valid):
+    # The Lean model (Defs/Store.lean) works on abstract names. Each spelling is handed to the driver (`sp` lines);
+    # the model's name of a spelling is `keyOf` = the first spelling with the same `resolve` (Defs/Names.lean:
+    # `resolve` models util.AddYamlExtension, anchored `defs.AddYamlExtension` and tied by skeleton; theorems
+    # C18_names_*: spellings with the same resolution are the same key, and only those). The driver answers every
+    # `sp` with the file it resolves to, which is compared with the monitor's `resolve` and with the file the
+    # implementation is OBSERVED to write for that name (`denotes`).
     L = ["case id %s nn %d valid %s" % (c["id"], len(c["names"]), ",".join("1" if v else "0" for v in valid))]
+    for nm in c["names"]:
+        L.append(("sp " + ",".join(str(ord(ch)) for ch in nm)).strip())
     reqn = {}
     for o in c["ops"]:
         k = o["op"]
@@ -64,57 +126,92 @@ def impl_line(d):
 
 
 class Spec:
-    """the property's own reading: names -> text, names -> recorded runs"""
+    """the property's own reading: DAG (= the file a name denotes, `resolve`) -> text, DAG -> recorded runs; judged on
+    the CONTENT of the DAGs directory after every operation (name and bytes of every file), not on the store's answers"""
     def __init__(self, c, valid):
         self.c, self.valid = c, valid
-        self.defs, self.hist = {}, {i: [] for i in range(len(c["names"]))}
+        self.file = c["files"]
+        self.keys = list(dict.fromkeys(self.file))
+        self.defs, self.hist = {}, {f: [] for f in self.keys}
+        self.dir = {}                                   # the directory as the implementation left it after the previous op
+        self.resumable = False
 
     def step(self, o, d):
         """apply op o given the implementation's dump d AFTER it; yields (signature, detail)"""
-        before_defs, before_hist = dict(self.defs), {k: list(v) for k, v in self.hist.items()}
+        names = self.c["names"]
+        sfx = ext_suffix(self.c, o)
+        before_defs, before_dir = dict(self.defs), self.dir
+        now = {e[0]: e[1] for e in (d.get("dir") or [])}
+        self.dir = now
+        self.resumable = False
+        first = {f: self.file.index(f) for f in self.keys}
         k, n = o["op"], o.get("n")
+        f = self.file[n] if n is not None else None
+        f2 = self.file[o["n2"]] if "n2" in o else None
         erred = bool(d["err"])
         if k == "create":
-            if n in self.defs:
-                if not erred: yield ("create-over-existing-not-refused", "create %r" % self.c["names"][n])
+            if f in self.defs:
+                if not erred: yield ("create-over-existing-not-refused" + sfx, "create %r (denotes %s, which exists)" % (names[n], f))
             else:
-                self.defs[n] = "tmpl"
+                self.defs[f] = "tmpl"
         elif k == "save":
             if not self.valid[o["text"]]:
-                if not erred: yield ("invalid-text-accepted", "save %r text %d" % (self.c["names"][n], o["text"]))
-            elif n in self.defs:
-                self.defs[n] = "t%d" % o["text"]
+                if not erred: yield ("invalid-text-accepted" + sfx, "save %r text %d" % (names[n], o["text"]))
+            elif f in self.defs:
+                self.defs[f] = "t%d" % o["text"]
             elif not erred:
-                yield ("save-of-missing-dag-accepted", "save %r" % self.c["names"][n])
+                yield ("save-of-missing-dag-accepted" + sfx, "save %r" % names[n])
         elif k == "rename":
             n2 = o["n2"]
-            if n2 in self.defs:
-                if not erred: yield ("rename-onto-existing-dag-not-refused", "rename %r -> %r" % (self.c["names"][n], self.c["names"][n2]))
-            elif n in self.defs:
-                self.defs[n2] = self.defs.pop(n)
-                self.hist[n2] = self.hist[n2] + self.hist[n]; self.hist[n] = []
+            if f2 == f:
+                pass                                    # onto another spelling of its own name: nothing may change, whatever the answer
+            elif f2 in self.defs:
+                if not erred: yield ("rename-onto-existing-dag-not-refused" + sfx, "rename %r -> %r (denotes %s, which exists)" % (names[n], names[n2], f2))
+            elif f in self.defs:
+                if erred and not finds_own_file(names[n]):
+                    pass                                # the client does not find a source spelled x.yml: refused, nothing may change
+                elif erred and f not in now and now.get(f2) == self.defs[f]:
+                    # neither refused-and-unchanged nor done: the answer is an error, yet the definition has moved
+                    gh2 = sorted(d["hist"][first[f2]] or [])
+                    carried = gh2 == sorted(p for _, p in self.hist[f] + self.hist[f2])
+                    yield ("rename:failure-reported-but-definition-moved" + ("" if carried or not self.hist[f] else "-history-left-behind") + sfx,
+                           "rename %r -> %r answered with an error, but %s is gone and %s holds its text%s" % (
+                               names[n], names[n2], f, f2, "" if carried or not self.hist[f] else "; its %d recorded runs are still filed under %s" % (len(self.hist[f]), f)))
+                    self.defs[f2] = self.defs.pop(f)
+                    if carried: self.hist[f2] = self.hist[f2] + self.hist[f]; self.hist[f] = []
+                    self.resumable = True               # the reference follows what happened; the rest of the case is still judged
+                else:
+                    self.defs[f2] = self.defs.pop(f)
+                    self.hist[f2] = self.hist[f2] + self.hist[f]; self.hist[f] = []
         elif k == "delete":
-            self.defs.pop(n, None); self.hist[n] = []      # history goes first, whether or not the file exists
+            self.defs.pop(f, None); self.hist[f] = []      # history goes first, whether or not the file exists
         elif k == "run":
-            self.hist[n].append((o["t"], o["p"]))
-        # compare the world
-        for i, nm in enumerate(self.c["names"]):
-            want = self.defs.get(i, "-")
-            got = d["defs"][i]
+            self.hist[f].append((o["t"], o["p"]))
+        # compare the world: every DAG of the case, by the bytes of its file and by its history
+        for key in sorted(self.keys, key=lambda x: 0 if x == f2 else 1 if x == f else 2):      # the target first: an overwrite is the headline
+            nm = names[first[key]]
+            want = self.defs.get(key, "-")
+            got = now.get(key, "-")
+            other = key != f and key != f2
             if got != want:
-                kind = "other-dag-changed" if (i != n and i != o.get("n2")) else ("refused-or-invalid-op-changed-definition" if erred else "definition-wrong")
+                kind = "other-dag-changed" if other else ("refused-or-invalid-op-changed-definition" if erred else "definition-wrong")
                 if want != "-" and got == "-": kind = "definition-lost"
-                if k == "rename" and i == o.get("n2") and before_defs.get(i) is not None and got != before_defs.get(i): kind = "rename-overwrote-existing-dag"
-                yield ("%s:%s" % (k, kind), "after %s: %r holds %s, expected %s" % (json.dumps(o), nm, got, want))
-            wh = [p for _, p in sorted(self.hist[i], reverse=True)]
-            gh = d["hist"][i] or []
+                if k == "rename" and key == f2 and f2 != f and before_defs.get(key) is not None and got != before_defs.get(key): kind = "rename-overwrote-existing-dag"
+                if k == "create" and key == f and before_defs.get(key) is not None and got != before_defs.get(key): kind = "create-overwrote-existing-dag"
+                yield ("%s:%s%s" % (k, kind, sfx), "after %s: %r (file %s) holds %s, expected %s" % (json.dumps(o), nm, key, got, want))
+            wh = [p for _, p in sorted(self.hist[key], reverse=True)]
+            gh = d["hist"][first[key]] or []
             if sorted(gh) != sorted(wh):
-                if k == "delete" and i == n and "rename-onto" in "": pass
-                kind = "other-dag-history-changed" if (i != n and i != o.get("n2")) else "history-wrong"
-                yield ("%s:%s" % (k, kind), "after %s: history of %r is %r, expected %r" % (json.dumps(o), nm, gh, wh))
+                kind = "other-dag-history-changed" if other else "history-wrong"
+                yield ("%s:%s%s" % (k, kind, sfx), "after %s: history of %r (file %s) is %r, expected %r" % (json.dumps(o), nm, key, gh, wh))
+        # whatever a name denotes: no operation may change or remove a file that was there, other than its own
+        own = {"create": set(), "save": {f}, "rename": {f}, "delete": {f}}.get(k, set())
+        for g, tag in before_dir.items():
+            if g not in own and now.get(g) != tag:
+                yield ("%s:existing-file-%s%s" % (k, "removed" if g not in now else "overwritten", sfx),
+                       "after %s: file %s held %s, now %s" % (json.dumps(o), g, tag, now.get(g, "nothing")))
         if d.get("stray"):
-            yield ("stray-file-left-in-dags-dir", "after %s: %r" % (json.dumps(o), d["stray"]))
-        # the implementation's world is the truth the next comparison starts from only if it agrees; otherwise stop
+            yield ("stray-file-left-in-dags-dir" + sfx, "after %s: %r" % (json.dumps(o), d["stray"]))
         return
 
 
@@ -187,7 +284,8 @@ def crash_save(binp, rng, tier, chk):
 
 def run(chk, replay):
     chk.trusted = common.TRUSTED_COMMON + ["strace signal injection (kill precedes the call)", "validity of a text = verdict of dag.LoadYAML (property C13 is about that verdict)"]
-    chk.assumptions = ["crash = process kill (page cache survives), not power loss", "names without '/' (the backward-compatibility path form is not generated)"]
+    chk.assumptions = ["crash = process kill (page cache survives), not power loss", "names without '/' (the backward-compatibility path form is not generated)",
+                       "dotted names other than the two YAML extensions (x.YAML, c.d: the store takes them literally, the loader appends .yaml) are not generated (observation O3)"]
     common.lean_obligations(chk, "BdModel/Props/C18.lean", {"Defs": tie_names("Defs"), "Hist": tie_names("Hist")})
     binp, out = common.build_harness("defs")
     if not binp:
@@ -200,7 +298,9 @@ def run(chk, replay):
             crash_save(binp, rng, chk.tier, chk); return
         cases = [cc["case"] if "case" in cc else cc]
     else:
-        cases = [gen_case(rng, k) for k in range(80 if chk.tier == "quick" else 800)]
+        cases = [gen_case(rng, k) for k in range(80 if chk.tier == "quick" else 800)] + directed_cases(rng)
+    for c in cases:
+        c["files"] = [resolve(nm) for nm in c["names"]]     # the monitor's notion; the harness reads definitions and histories there
     p = subprocess.run([binp], input="\n".join(json.dumps(c) for c in cases) + "\n", stdout=subprocess.PIPE, stderr=subprocess.PIPE, text=True, timeout=3000)
     res = {}
     for l in p.stdout.strip().split("\n"):
@@ -213,14 +313,31 @@ def run(chk, replay):
     rc, dout, derr = common.run_driver("defs", "\n".join(text) + "\n", timeout=600)
     if rc != 0:
         chk.oblige("driver-run:defs", False, derr[-2000:]); return
-    pred, cur = {}, None
+    pred, resolved, cur = {}, {}, None
     for l in dout.split("\n"):
         if l.startswith("case "):
-            cur = l.split(" ")[1]; pred[cur] = []
+            cur = l.split(" ")[1]; pred[cur] = []; resolved[cur] = []
+        elif cur is not None and l.startswith("resolved"):
+            resolved[cur].append("".join(chr(int(x)) for x in l[9:].split(",") if x))
         elif cur is not None and l:
             pred[cur].append(l)
-    stat = {"ops": 0, "refused": 0, "by_op": {}, "invalid_saves": 0, "rename_onto_existing": 0, "create_existing": 0}
+    stat = {"ops": 0, "refused": 0, "by_op": {}, "invalid_saves": 0, "rename_onto_existing": 0, "create_existing": 0,
+            "cases_with_extension_spellings": 0, "ops_on_extension_spelling": 0, "create_onto_taken_other_spelling": 0,
+            "rename_onto_taken_other_spelling": 0, "rename_onto_own_other_spelling": 0, "rename_to_free_yml_spelling": 0}
     dis = 0
+    # which file a name denotes: monitor's reading = model (`resolve`) = what the implementation is observed to write
+    nres, badres = 0, []
+    for c in cases:
+        r = res.get(c["id"])
+        if r is None or not r.get("denotes"): continue
+        for i, nm in enumerate(c["names"]):
+            nres += 1
+            m = resolved.get(c["id"], [])
+            if not (r["denotes"][i] == c["files"][i] and i < len(m) and m[i] == c["files"][i]):
+                badres.append("%r: monitor %s, model %s, implementation writes %s" % (nm, c["files"][i], m[i] if i < len(m) else "?", r["denotes"][i]))
+    chk.evaluations += nres
+    chk.oblige("correspondence:defs:name-resolution (the file a spelled name denotes: monitor = model `resolve` = the file the store is observed to write)",
+               not badres, "; ".join(sorted(set(badres))[:6]))
     for c in cases:
         r = res.get(c["id"])
         if r is None:
@@ -228,19 +345,31 @@ def run(chk, replay):
         if r.get("panic"):
             chk.violation("C18:panic", r["panic"][:300], {"case": c}); continue
         spec = Spec(c, r["valid"])
+        if any("." in nm for nm in c["names"]): stat["cases_with_extension_spellings"] += 1
         for i, o in enumerate(c["ops"]):
             if i >= len(r["dumps"]): break
             d = r["dumps"][i]
             chk.evaluations += 1
             stat["ops"] += 1; stat["refused"] += bool(d["err"]); stat["by_op"][o["op"]] = stat["by_op"].get(o["op"], 0) + 1
             if o["op"] == "save" and not r["valid"][o["text"]]: stat["invalid_saves"] += 1
-            if o["op"] == "rename" and o["n2"] in spec.defs: stat["rename_onto_existing"] += 1
-            if o["op"] == "create" and o["n"] in spec.defs: stat["create_existing"] += 1
-            if o["op"] in ("rename", "delete", "save"):
+            fn = c["files"][o["n"]] if "n" in o else None
+            fn2 = c["files"][o["n2"]] if "n2" in o else None
+            sfx = ext_suffix(c, o)
+            if o["op"] == "rename" and fn2 in spec.defs and fn2 != fn:
+                stat["rename_onto_existing"] += 1
+                if c["names"][o["n2"]] != c["names"][spec.file.index(fn2)] and sfx: stat["rename_onto_taken_other_spelling"] += 1
+            if o["op"] == "rename" and fn2 == fn and fn in spec.defs: stat["rename_onto_own_other_spelling"] += 1
+            if o["op"] == "rename" and fn in spec.defs and fn2 not in spec.defs and c["names"][o["n2"]].endswith(".yml"): stat["rename_to_free_yml_spelling"] += 1
+            if o["op"] == "create" and fn in spec.defs:
+                stat["create_existing"] += 1
+                if sfx: stat["create_onto_taken_other_spelling"] += 1
+            if sfx: stat["ops_on_extension_spelling"] += 1
+            if o["op"] in ("rename", "delete", "save") or (sfx and o["op"] == "create"):
                 chk.nontrivial.add(c["id"] + ":%d" % i)
             bad = list(spec.step(o, d))
             for sig, detail in bad[:1]:
                 chk.violation("C18:" + sig, detail, {"case": dict(c, ops=c["ops"][:i + 1])})
+            if len(bad) == 1 and spec.resumable: bad = []
             m = pred.get(c["id"], [])
             if i < len(m) and m[i] != impl_line(d):
                 dis += 1; chk.disagreements += 1
@@ -255,8 +384,10 @@ def run(chk, replay):
     stat["save_crash_states"] = crash_save(binp, rng, chk.tier, chk) if not replay else 0
     chk.stats = stat
     chk.samples = [{"names": c["names"], "ops": c["ops"][:8]} for c in cases[:2]]
-    chk.rule = ("sequences of 6-30 create/save/rename/delete/list operations through the real client + local DAG store over 2-4 names (spaces, dots, "
-                "glob metacharacters, _c) interleaved with recorded runs; candidate texts valid / invalid YAML / nameless step / empty / "
+    chk.rule = ("sequences of 6-30 create/save/rename/delete/list operations through the real client + local DAG store over 2-5 names (spaces, "
+                "glob metacharacters, _c, letter-case pairs; in ~45 % of the cases spellings WITH a YAML extension — x.yml, x.yaml, x.yml.yaml — "
+                "next to the bare name they alias: a DAG is the file a name denotes, two spellings of one file are one target; plus two directed "
+                "aliasing cases) interleaved with recorded runs; candidate texts valid / invalid YAML / nameless step / empty / "
                 "duplicate step / huge (1 MB); after every op the full world (every definition's text, every history, stray files) is "
                 "checked against the reference reading of the property and compared with the model; plus the saving process SIGKILLed "
                 "before every system call touching the DAGs directory for several text sizes; non-trivial = rename/delete/save ops and crash states")
